@@ -440,7 +440,9 @@ type progGen struct {
 
 var progAtoms = []*ast.SExpr{ast.NewSymbol("a"), ast.NewSymbol("b"), sym5, sym6, ast.NewInt(1), ast.NewSymbol("s"), ast.NewSymbol("1"), ast.NewString("a"),
 	// numbers on which a careless comparison goes wrong: a float equal in print to an int, a NaN (one shared atom), integers one apart beyond 2^53
-	ast.NewFloat(1), nanAtom, ast.NewFloat(0.5), ast.NewInt(1 << 53), ast.NewInt(1<<53 + 1)}
+	ast.NewFloat(1), nanAtom, ast.NewFloat(0.5), ast.NewInt(1 << 53), ast.NewInt(1<<53 + 1),
+	// symbols spelled like the names gomini gives its variables (under ast.CreateVar a variable's placeholder is such a symbol)
+	ast.NewSymbol("v0"), ast.NewSymbol("v1"), ast.NewSymbol("v2")}
 
 func (pg *progGen) term(depth, nenv int) *PT {
 	r := pg.r
